@@ -6,16 +6,17 @@ import time
 
 from . import common as c
 
-SUPPORT = ["Pools/Pool.v", "Pools/Api.v", "Pools/Buf.v", "Pools/Ev.v", "Pools/CheckSizeOk.v", "Safe/GoInt.v", "Safe/SizeArith.v"]
+SUPPORT = ["Pools/Pool.v", "Pools/Api.v", "Pools/ApiGen.v", "Pools/Buf.v", "Pools/Ev.v", "Pools/CheckSizeOk.v", "Safe/GoInt.v", "Safe/SizeArith.v"]
 
 CLAIM = {
-    "gens": ["CheckSize", "PureFns", "Tables"],
+    "gens": ["CheckSize", "PureFns", "Tables", "PoolApi"],
     "category": "proof",
     "text": "Theorems (Coq): (1) owned_forever - a machine of array references MOVED between pools, call registers, callers, fresh allocations and the garbage, "
             "with goroutines interleaved at instruction granularity: for every set of alias-free programs, every schedule and every choice of the pools, no write "
             "ever targets an array a caller owns or a pool holds, and every array is referenced from exactly one place; instantiated with Encode, EncodeInto, "
-            "EncodeIndented, StreamEncoder.Encode, ast Node.MarshalJSON, StreamDecoder.Decode, Unmarshal([]byte) transcribed from the Go source (all run-time "
-            "branches), and shown discriminating: 'return the pooled buffer without copying' and 'freeBuffer before the copy' are expressible and refuted. "
+            "EncodeIndented, StreamEncoder.Encode, ast Node.MarshalJSON EXTRACTED from the Go source on every run (tools/tx/poolapi.go -> Gen/PoolApi.v: "
+            "every control-flow path x growth x poolable, 92 programs; an edit that returns a pooled buffer or uses a buffer after freeing it makes the extracted "
+            "program non-linear or is rejected, so P breaks) and with hand transcriptions of StreamDecoder.Decode and Unmarshal([]byte); shown discriminating: 'return the pooled buffer without copying' and 'freeBuffer before the copy' are expressible and refuted. "
             "(2) output_cap_independent - the bytes produced do not depend on capacity, garbage behind len, or growslice leftovers. (3) quote / html-escape "
             "loops (with rt.GuardSlice2 translated from source) never let the native routine write beyond cap or read outside the source, for any capacity "
             "sequence and any native behaviour within its contract. (4) check_size_covers over Gen/CheckSize.v (regenerated from the x86 assembler on every run): "
@@ -35,8 +36,9 @@ def run(ctx):
     ctx.trusted = c.TRUSTED_COMMON + [c.TRUSTED_TX, "sync.Pool reuse is deterministic with GOMAXPROCS=1 and the garbage collector switched off during a history",
                                      "mmap/mprotect + debug.SetPanicOnFault: a store behind a buffer whose capacity ends at a PROT_NONE page is observed as a fault"]
     ctx.assumptions = [
-        "the API programs of Pools/Api.v are hand transcriptions of encoder.go, stream.go, ast/encode.go, decoder/api/stream.go, sonic.go (every run-time branch is a program variant); "
-        "they are tied to the running code by the history / aliasing runs, not by the translator",
+        "Gen/PoolApi.v is extracted by pattern rules over the statements that mention a buffer (pool get/put helpers are shape-checked primitives; callee writes are a table: "
+        "encodeIntoCheckRace, EncodeInto, Node.encode, json.Indent, HTMLEscape/CorrectWith swap); the StreamDecoder / Unmarshal([]byte) programs of Pools/Api.v remain hand transcriptions, "
+        "tied to the running code by the history / aliasing runs",
         "native routines are represented by their contract (writes <= dn, consumed <= nb) in the loop theorems; C20 ties the contract for quote/html_escape",
         "C06_unquote_len_le reuses Str/UnquoteProofs.v (C20)",
     ]
@@ -133,6 +135,10 @@ def run(ctx):
 
     for k in sorted(seen_known):
         ctx.known(k, known[k]["signature"][:200] + " :: " + seen_known[k][:160])
+    if problems and real:
+        # a failing input was found AND the proof half is broken: say so in the report of the input
+        note = " [the proof half is broken as well: " + "; ".join(p[1][:300] for p in problems if p[0] == "P")[:600] + "]"
+        real = [(w + note if i == 0 else w, pl) for i, (w, pl) in enumerate(real)]
     shown = set()
     for what, payload in real:
         key = "".join(ch for ch in what[:40] if not ch.isdigit())
